@@ -6,8 +6,9 @@
 -/
 import BEI.Proofs.Update
 import BEI.Model.Conditions
+import BEI.Props.C16
 namespace BEI.Props.C12
-open BEI
+open BEI BEI.Props.C05 BEI.Props.C16
 
 /-- the canonical invocation list of one action for a reader `r` (only its raw input and gamepad matter) -/
 def canonIds (r : Reader) (ab : ActionBind) : List Nat :=
@@ -108,5 +109,119 @@ example :
      | some o => o.log.map Inv.id
      | none => []) = [5, 7, 8] := by
   decide
+
+/-! ### the whole frame -/
+
+/-- the canonical list depends on the reader only through the raw device state and the gamepad selection -/
+theorem canonIds_congr (r r' : Reader) (h1 : r.raw = r'.raw) (h2 : r.device = r'.device) (ab : ActionBind) :
+    canonIds r ab = canonIds r' ab := by
+  have hs : ∀ b, suppressed r b = suppressed r' b := by
+    intro b
+    unfold suppressed
+    congr 1
+    cases hb : b.input <;> simp [Reader.activeUnconsumed, Reader.modsDown, Reader.findPad, h1, h2]
+  simp only [canonIds, hs]
+
+/-- the canonical invocation list of one context instance in a frame with raw device state `raw` -/
+def instCanon (raw : RawInput) (ci : ContextInstance) : List Nat :=
+  ci.bindings.flatMap (canonIds { raw := raw, device := ci.gamepad })
+
+/-- … and of a whole registry: groups in registry order, the instances of an exclusive group in their order -/
+def regCanon (raw : RawInput) : Registry → List Nat
+  | [] => []
+  | .exclusive _ is :: rest => is.flatMap (fun p => instCanon raw p.2) ++ regCanon raw rest
+  | .shared _ _ ci :: rest => instCanon raw ci ++ regCanon raw rest
+
+theorem rawInv (raw : RawInput) : ReaderInv (fun r => r.raw = raw) where
+  consume := by intro r i h; cases i <;> exact h
+  setGamepad := by intro r d h; exact h
+
+theorem instance_log (ci : ContextInstance) (r : Reader) (t : Tick) (es : List Nat) (o : ContextInstance.Out)
+    (h : ci.update r t es = some o) : o.log.map Inv.id = instCanon r.raw ci ∧ o.reader.raw = r.raw := by
+  refine ⟨?_, instance_inv (rawInv r.raw) ci r t es o h rfl⟩
+  unfold ContextInstance.update at h
+  split at h
+  · cases h
+  · rename_i bs r' av' dl lg hl
+    simp only [Option.some.injEq] at h
+    subst h
+    obtain ⟨h1, _⟩ := instance_log_canonical t es _ _ _ _ _ _ _ _ hl
+    rw [h1]
+    unfold instCanon
+    congr 1
+
+theorem updateExclusive_log (t : Tick) :
+    ∀ (is : List (Nat × ContextInstance)) (r : Reader) is' r' dl lg,
+      Registry.updateExclusive r t is = some (is', r', dl, lg) →
+      lg.map Inv.id = is.flatMap (fun p => instCanon r.raw p.2) ∧ r'.raw = r.raw := by
+  intro is
+  induction is with
+  | nil =>
+    intro r is' r' dl lg h
+    simp only [Registry.updateExclusive, Option.some.injEq, Prod.mk.injEq] at h
+    obtain ⟨_, rfl, _, rfl⟩ := h
+    simp
+  | cons p ps ih =>
+    intro r is' r' dl lg h
+    obtain ⟨e, ctx⟩ := p
+    simp only [Registry.updateExclusive] at h
+    split at h
+    · cases h
+    · rename_i o ho
+      split at h
+      · cases h
+      · rename_i rest' r'' dl' lg' hrest
+        simp only [Option.some.injEq, Prod.mk.injEq] at h
+        obtain ⟨_, rfl, _, rfl⟩ := h
+        obtain ⟨hl, hr⟩ := instance_log ctx r t [e] o ho
+        obtain ⟨ihl, ihr⟩ := ih _ _ _ _ _ hrest
+        refine ⟨?_, by rw [ihr, hr]⟩
+        simp only [List.map_append, List.flatMap_cons, hl, ihl, hr]
+
+/-- **(3) the whole frame**: the invocation log of the frame update is the canonical list of the registry — every group in
+    registry order, every instance, every action in binding order, per input modifiers then conditions (unless still under
+    the initial suppression), then the action-level ones; each exactly once.  It depends on the raw device state and the
+    gamepad selections only: not on results, blockers, consumption or states. -/
+theorem registry_log_canonical (t : Tick) :
+    ∀ (reg : Registry) (r : Reader) (o : Registry.Out), Registry.update r t reg = some o →
+      o.log.map Inv.id = regCanon r.raw reg ∧ o.reader.raw = r.raw := by
+  intro reg
+  induction reg with
+  | nil =>
+    intro r o h
+    simp only [Registry.update, Option.some.injEq] at h
+    subst h
+    simp [regCanon]
+  | cons g rest ih =>
+    intro r o h
+    cases g with
+    | exclusive ty is =>
+      simp only [Registry.update] at h
+      split at h
+      · cases h
+      · rename_i is' r' dl lg hex
+        split at h
+        · cases h
+        · rename_i o' ho'
+          simp only [Option.some.injEq] at h
+          subst h
+          obtain ⟨hl, hr⟩ := updateExclusive_log t _ _ _ _ _ _ hex
+          obtain ⟨ihl, ihr⟩ := ih r' o' ho'
+          refine ⟨?_, by simp only; rw [ihr, hr]⟩
+          simp only [List.map_append, regCanon, hl, ihl, hr]
+    | shared ty es ctx =>
+      simp only [Registry.update] at h
+      split at h
+      · cases h
+      · rename_i oc hoc
+        split at h
+        · cases h
+        · rename_i o' ho'
+          simp only [Option.some.injEq] at h
+          subst h
+          obtain ⟨hl, hr⟩ := instance_log ctx r t es oc hoc
+          obtain ⟨ihl, ihr⟩ := ih oc.reader o' ho'
+          refine ⟨?_, by simp only; rw [ihr, hr]⟩
+          simp only [List.map_append, regCanon, hl, ihl, hr]
 
 end BEI.Props.C12
